@@ -83,10 +83,19 @@ func (x ExprD) Build() jp.Expr {
 				}
 			case 'F':
 				e = jp.F(f.Eq.Build())
+			case 'P':
+				e = jp.B()
 			}
 			continue
 		}
 		switch f.Kind {
+		case 'P':
+			// the flag fragment: through the builder, or appended as the public type (the same value)
+			if i%2 == 0 {
+				e = e.B()
+			} else {
+				e = append(e, jp.Bracket(' '))
+			}
 		case 'R':
 			e = e.Root()
 		case 'A':
@@ -189,7 +198,7 @@ func (x ExprD) Wire(sb *strings.Builder) {
 	for _, f := range x {
 		sb.WriteByte(' ')
 		switch f.Kind {
-		case 'R', 'A', 'W', 'D':
+		case 'R', 'A', 'W', 'D', 'P':
 			sb.WriteByte(f.Kind)
 		case 'C':
 			sb.WriteString("C " + lib.HexF([]byte(f.Key)))
@@ -313,7 +322,7 @@ func (r *wireReader) expr() ExprD {
 		t := r.next()
 		f := FragD{Kind: t[0]}
 		switch t {
-		case "R", "A", "W", "D":
+		case "R", "A", "W", "D", "P":
 		case "C":
 			f.Key = r.hex()
 		case "N":
